@@ -76,7 +76,7 @@ TOUNI: List[Optional[Tuple[list, list]]] = [
     ([(b"\x20", " ")], [(b"\x80", b"\xff", "Ā")]),  # mixed, high half
     ([], [(b"\x00", b"\xff", "Ѐ")]),  # every code
     # destinations that carry out of the low byte (U+00F0.. -> U+0109; last unit of a two-unit target; U+0FFE -> U+1003)
-    ([], [(b"\x41", b"\x5a", "ð"), (b"\x61", b"\x63", "Aÿ"), (b"\x30", b"\x35", "\u0ffe")]),
+    ([], [(b"\x41", b"\x5a", "ð"), (b"\x61", b"\x63", "Aÿ"), (b"\x30", b"\x35", "\u0ffe"), (b"\x64", b"\x66", "ffg"), (b"\x70", b"\x71", "A\U0001f600")]),
     # one stream holding several begincmap .. endcmap sections (a map with supplements appended): all of them count
     ("sections", [([(b"\x41", "X")], []), ([(b"\x42", "Y"), (b"\x01", "Q")], [(b"\x61", b"\x63", "α")])]),
     ("sections", [([], [(b"\x30", b"\x32", ["A", "BC", "D"])]), ([(b"\x43", "ffi")], []), ([(b"\x7f", "Z")], [(b"\x80", b"\x82", "Ā")])]),
